@@ -104,6 +104,13 @@ fn case(t0: &mut Tape, w: &Worker) -> CaseResult {
         args.extend(["-o".to_string(), w.path("ignored_out.raw").display().to_string()]);
         out.labels.push("opt:ignored_output".into());
     }
+    // a statistics-level custom check (expected packet count), right or off by one: its failure is an error with its own code
+    let custom_cdps: Option<usize> = if matches!(mode, SMode::Check(_)) && filter == Filter::None && ot.chance(1, 4) { Some(rdhs.len() + ot.below(2)) } else { None };
+    if let Some(n) = custom_cdps {
+        let f = w.write("cdps_checks.toml", format!("cdps = {n}\n").as_bytes());
+        args.extend(["--checks-toml".to_string(), f.display().to_string()]);
+        out.labels.push(if n == rdhs.len() { "opt:custom_cdps=truth".into() } else { "opt:custom_cdps=truth+1".into() });
+    }
     if ot.chance(1, 5) {
         let v = *ot.pick(&["0", "2", "3"]);
         args.extend(["-v".to_string(), v.to_string()]);
@@ -151,7 +158,14 @@ fn case(t0: &mut Tape, w: &Worker) -> CaseResult {
     let custom = es["custom_checks_stats_errors"].as_array().map(|a| a.len()).unwrap_or(0);
     chk("total_errors", es["total_errors"].clone(), json!(listed.len() + custom));
     let re = regex::Regex::new(r"\[E([0-9]{2,4})\]").unwrap();
-    let codes: BTreeSet<String> = listed.iter().flat_map(|m| re.captures_iter(m).map(|c| c[1].to_string()).collect::<Vec<_>>()).collect();
+    let mut codes: BTreeSet<String> = listed.iter().flat_map(|m| re.captures_iter(m).map(|c| c[1].to_string()).collect::<Vec<_>>()).collect();
+    if let Some(n) = custom_cdps {
+        let want_custom = (n != rdhs.len()) as usize;
+        chk("custom_checks_stats_errors(count)", json!(custom), json!(want_custom));
+        if want_custom == 1 {
+            codes.insert("9001".into());
+        }
+    }
     let got_codes: BTreeSet<String> = es["unique_error_codes"].as_array().map(|a| a.iter().filter_map(|x| x.as_str().map(String::from)).collect()).unwrap_or_default();
     chk("unique_error_codes", json!(got_codes), json!(codes));
     // analysed-packet statistics
@@ -247,7 +261,7 @@ pub fn build() -> Property {
         id: "C14",
         rule: "G_frame streams (arbitrary header values, packet counts up to 260 incl. 99..101 and 199..201, payload totals beyond 2^16, colliding populations, any of the 20 known system ids on packet 0) and G_conf streams with G_mut edits \
                x modes {5 checks, 3 views, filtered writing} x filter {none, link, FEE, stave; present / absent} x {JSON, TOML} x {file, pipe} (+ occasionally -v 0/2/3 and, next to a check or view with a filter, an ignored -o destination). Ground truth recomputed from the input with the independent walker: RDHs visited (all packets read), RDHs matching, \
-               payload bytes of the packets handed on, sorted link set, FEE-id set (no duplicates), run trigger type / version / data format / system id of packet 0, total errors = listed + custom, distinct codes = codes in the listed messages; \
+               payload bytes of the packets handed on, sorted link set, FEE-id set (no duplicates), run trigger type / version / data format / system id of packet 0, total errors = listed + custom, distinct codes = codes in the listed messages (+ 9001 when a configured packet count is off: a quarter of the unfiltered check runs configure `cdps` = truth or truth + 1); \
                in check and view modes additionally HBFs (stop bit exactly 1), layer/stave set (if the first analysed packet is ITS) and the 20 per-bit trigger counters over the packets handed on; in write mode those are 0. Report rows are cross-checked. \
                Non-trivial = a filter that skips packets, >= 101 packets, or >= 2 links.",
         assumptions: vec![
